@@ -364,14 +364,14 @@ func c10Route(p Params) func() {
 			}
 		}
 		ctxt += "]"
-		unknownRan := 0
+		unknownRan, unknownPushRan := 0, 0
 		if unknown {
 			srv.SetUnknownCall(func(ctx erpc.UnknownCallCtx) (interface{}, *erpc.Status) {
 				unknownRan++
 				return "unknown", nil
 			})
 			srv.SetUnknownPush(func(ctx erpc.UnknownPushCtx) *erpc.Status {
-				unknownRan++
+				unknownPushRan++
 				return nil
 			})
 		}
@@ -400,7 +400,7 @@ func c10Route(p Params) func() {
 		for _, n := range names {
 			// as CALL
 			c10ran = nil
-			unknownRan = 0
+			unknownRan, unknownPushRan = 0, 0
 			var res string
 			st := cs.Call(n, "x", &res).Status()
 			vsched.Quiesce()
@@ -413,8 +413,8 @@ func c10Route(p Params) func() {
 					vsched.Failf("CALL of the unregistered name %q ran registered handler(s) %v | %s", n, c10ran, ctxt)
 				}
 				if unknown {
-					if !st.OK() || unknownRan != 1 {
-						vsched.Failf("CALL %q with unknown-handler set: status %s, unknown ran %d | %s", n, world.StatStr(st), unknownRan, ctxt)
+					if !st.OK() || unknownRan != 1 || unknownPushRan != 0 {
+						vsched.Failf("CALL of an unregistered name with unknown-handlers set: status, unknown-call handler runs, unknown-push handler runs are not (OK,1,0) | %q: %s, %d, %d, %s", n, world.StatStr(st), unknownRan, unknownPushRan, ctxt)
 					}
 				} else if st.Code() != erpc.CodeNotFound {
 					vsched.Failf("CALL of the unregistered name %q returned %s, want 404 | %s", n, world.StatStr(st), ctxt)
@@ -422,7 +422,7 @@ func c10Route(p Params) func() {
 			}
 			// as PUSH
 			c10ran = nil
-			unknownRan = 0
+			unknownRan, unknownPushRan = 0, 0
 			if pst := cs.Push(n, "x"); !pst.OK() {
 				vsched.Failf("push write failed: %v", pst)
 			}
@@ -435,8 +435,11 @@ func c10Route(p Params) func() {
 				if len(c10ran) != 0 {
 					vsched.Failf("PUSH of the unregistered name %q ran registered handler(s) %v | %s", n, c10ran, ctxt)
 				}
-				if unknown && unknownRan != 1 {
-					vsched.Failf("PUSH %q with unknown-handler set: unknown ran %d times | %s", n, unknownRan, ctxt)
+				if unknown && (unknownPushRan != 1 || unknownRan != 0) {
+					vsched.Failf("PUSH of an unregistered name with unknown-handlers set: unknown-push handler ran %d times and unknown-call handler %d times, want 1 and 0 | %q %s", unknownPushRan, unknownRan, n, ctxt)
+				}
+				if !unknown && unknownRan+unknownPushRan != 0 {
+					vsched.Failf("an unknown handler ran although none is set")
 				}
 			}
 			world.Counter("requests")
